@@ -272,7 +272,7 @@ func c03Body(e *Env) ([]byte, string, bool) {
 		mm = &pb.RawMessageV2{Sets: map[string]*pb.SetTagV2{"s": {TagMap: map[string]*pb.RawSetV2{"t:1": {Tags: []string{"t:1"}}, "t:1,": {Tags: []string{"t:1"}, Values: []string{"m"}}, "": {}}}, "": {}},
 			Gauges: map[string]*pb.GaugeTagV2{"g": {TagMap: map[string]*pb.RawGaugeV2{"": {Value: math.NaN()}}}, "": {TagMap: map[string]*pb.RawGaugeV2{"x": {Hostname: "h"}}}}}
 	}
-	raw, _ := proto.Marshal(mm)
+	raw, _ := proto.MarshalOptions{Deterministic: true}.Marshal(mm) // map fields in key order: the bytes (and what a bit flip at offset n hits) replay
 	valid := true
 	if e.Chance(1, 3) {
 		// a well-formed event message whose enum and integer fields hold whatever the wire allows
